@@ -26,6 +26,11 @@ import signal
 import sys
 
 sys.path.insert(0, os.path.dirname(os.path.dirname(os.path.abspath(__file__))))
+# the repository's pinned third-party versions (asttokens 3.x, astroid) live in /venv; the overlay
+# venv may shadow some of them with other versions, so /venv's site-packages go first
+_PROD_SITE = "/venv/lib/python3.12/site-packages"
+if os.path.isdir(os.path.join(_PROD_SITE, "asttokens")) and sys.path[0] != _PROD_SITE:
+  sys.path.insert(0, _PROD_SITE)
 from vlib import common
 from vlib.rtc import eng, fn
 from checks import C06
